@@ -94,8 +94,12 @@ type Tamper struct {
 	Dir  string `json:"dir"`  // "C2S" or "S2C"
 	Off  int    `json:"off"`  // TCP: stream offset; UDP: byte offset inside the datagram
 	Nth  int    `json:"nth"`  // UDP: which datagram of that direction (1-based)
-	Kind string `json:"kind"` // "flip","sub","ins","del","trunc"
+	Kind string `json:"kind"` // "flip","sub","ins","del","trunc","splice","swapwrites","dropwrite","dupwrite"
 	Bit  int    `json:"bit"`
+	Seg  string `json:"seg"`  // UDP: select the first transmission of this segment kind ("open","data",...) with Seq instead of Nth
+	Seq  int    `json:"seq"`
+	Src  int    `json:"src"` // splice: copy Len bytes from offset Src of the same datagram/write over Off
+	Len  int    `json:"len"`
 }
 
 // Scenario is one run.
@@ -388,6 +392,7 @@ func Run(sc *Scenario) (res *Result) {
 	pnet := simnet.NewPacketNet()
 	snet := simnet.NewStreamNet()
 	ndg := map[string]int{}
+	prevDg := map[string][]byte{}
 	epOf := func(ip net.IP) string {
 		if ip.Equal(net.IPv4(10, 1, 0, 1)) {
 			return "S"
@@ -443,12 +448,38 @@ func Run(sc *Scenario) (res *Result) {
 				}
 			}
 			for _, tm := range sc.Tampers {
-				if tm.Dir == dir && tm.Nth == ndg[dir] {
+				hit := tm.Nth == ndg[dir]
+				if tm.Seg != "" {
+					hit = kindOf(uint8(e.Pt)) == tm.Seg && int64(tm.Seq) == e.Seq && e.Tx == 1
+				}
+				if tm.Dir == dir && hit && tm.Kind == "reflect" {
+					// a byte-exact copy of this datagram is injected back toward its own sender,
+					// ahead of (Bit=0) or after (Bit=1) the peer's genuine traffic
+					cp := append([]byte(nil), d.Data...)
+					src, dst := d.Dst, d.Src
+					time.AfterFunc(time.Duration(tm.Len)*time.Millisecond, func() { pnet.Inject(src, dst, cp) })
+					e.Fate = "reflect"
+					continue
+				}
+				if tm.Dir == dir && hit && tm.Kind == "xsplice" {
+					// bytes of the PREVIOUS datagram of this direction (another segment, possibly another session)
+					prev := prevDg[dir]
+					out := append([]byte(nil), d.Data...)
+					if prev != nil && tm.Src+tm.Len <= len(prev) && tm.Off+tm.Len <= len(out) {
+						copy(out[tm.Off:], prev[tm.Src:tm.Src+tm.Len])
+					}
+					f.Replace = out
+					e.Fate = "tamper"
+					e.A = regionOf(seg, tm.Off)
+					continue
+				}
+				if tm.Dir == dir && hit {
 					f.Replace = mutate(d.Data, tm)
 					e.Fate = "tamper"
 					e.A = regionOf(seg, tm.Off)
 				}
 			}
+			prevDg[dir] = append([]byte(nil), d.Data...)
 			if sc.NoTxLog == 0 || e.Fate != "deliver" || (sc.NoTxLog == 1 && !refcodec.IsAck(uint8(e.Pt))) {
 				rec.add(e)
 			}
@@ -524,9 +555,40 @@ func Run(sc *Scenario) (res *Result) {
 			}
 		}
 		if len(sc.Tampers) > 0 {
+			nwrite := map[string]int{}
+			held := map[string][]byte{}
 			snet.Tamper = func(conn int, dir string, off int, b []byte) []byte {
 				out := b
+				nwrite[dir]++
 				for _, tm := range sc.Tampers {
+					if tm.Dir != dir {
+						continue
+					}
+					switch tm.Kind {
+					case "swapwrites": // the Nth and (N+1)th writes of this direction change places
+						if nwrite[dir] == tm.Nth {
+							held[dir] = append([]byte(nil), b...)
+							return []byte{}
+						}
+						if nwrite[dir] == tm.Nth+1 && held[dir] != nil {
+							out = append(append([]byte(nil), b...), held[dir]...)
+							held[dir] = nil
+							return out
+						}
+					case "dropwrite":
+						if nwrite[dir] == tm.Nth {
+							return []byte{}
+						}
+					case "dupwrite":
+						if nwrite[dir] == tm.Nth {
+							return append(append([]byte(nil), b...), b...)
+						}
+					}
+				}
+				for _, tm := range sc.Tampers {
+					if tm.Kind == "swapwrites" || tm.Kind == "dropwrite" || tm.Kind == "dupwrite" {
+						continue
+					}
 					if tm.Dir == dir && tm.Off >= off && tm.Off < off+len(b) {
 						t2 := tm
 						t2.Off = tm.Off - off
@@ -696,6 +758,14 @@ func Run(sc *Scenario) (res *Result) {
 	}
 	if sc.Linger > 0 {
 		time.Sleep(time.Duration(sc.Linger) * time.Millisecond)
+	}
+	if !sc.Realtime {
+		// Mux.Close holds the mux lock while a session's graceful close sleeps; the 5 s maintenance tick
+		// then waits for that lock (a mutex wait is not durably blocking, so virtual time would stop).
+		// Close right after a tick, which leaves the whole period free.
+		el := time.Since(rec.start)
+		next := (el/(5*time.Second)+1)*5*time.Second + 100*time.Millisecond
+		time.Sleep(next - el)
 	}
 	t0 := time.Now()
 	cmux.Close()
@@ -968,6 +1038,10 @@ func mutate(b []byte, tm Tamper) []byte {
 		out = append(out[:tm.Off], out[tm.Off+1:]...)
 	case "trunc":
 		out = out[:tm.Off]
+	case "splice":
+		if tm.Src >= 0 && tm.Src+tm.Len <= len(out) && tm.Off+tm.Len <= len(out) {
+			copy(out[tm.Off:tm.Off+tm.Len], append([]byte(nil), out[tm.Src:tm.Src+tm.Len]...))
+		}
 	}
 	return out
 }
